@@ -1,6 +1,7 @@
 import ActsModel.Spec.Ref
 import ActsModel.Spec.Progress
 import ActsModel.Gen.Branch
+import ActsModel.Model.Wait
 
 /-!
 # C01 — Progress: a quiescent, unfinished process is always waiting on a client
@@ -473,6 +474,23 @@ never being empty for an unfinished construct. -/
 theorem waiting_branches_are_woken :
     Acts.Gen.needsReadyAnyEnded = true ∧ Acts.Gen.elseReadyAllSkipped = true ∧ Acts.Gen.elseClosedWhenTaken = true ∧
     Acts.Gen.nextWakesAll = true ∧ Acts.Gen.reviewWakesAll = true := by decide
+
+/-- **the recorded wait-cycle findings, as witnesses on the wake-up rules** (`C01|stranded|wait-cycle:*`): with the rules the engine has
+(`waiting_branches_are_woken` reads them from the source) two `else` branches wait for each other — each needs *every* sibling skipped,
+and a waiting `else` branch is not skipped —, and a `needs` branch that names only the `else` branch waits with it when no condition
+holds. Nothing runs, both wait, no rule applies: the step never ends. The deploy accepts such models; the reference interpretation
+excludes them by `wf`. -/
+theorem wait_cycle_two_else :
+    Acts.Wait.stuck [⟨"c", .cond, .skipped⟩, ⟨"e1", .otherwise, .pending⟩, ⟨"e2", .otherwise, .pending⟩] = true := by decide
+
+theorem wait_cycle_needs_on_else :
+    Acts.Wait.stuck [⟨"c", .cond, .skipped⟩, ⟨"e", .otherwise, .pending⟩, ⟨"n", .needs ["e"], .pending⟩] = true := by decide
+
+/-- … while the well-formed shapes beside them are not stuck: one `else` branch runs when every sibling was skipped, a `needs` branch over a
+condition branch is woken by its ending -/
+theorem no_wait_cycle_when_well_formed :
+    Acts.Wait.stuck [⟨"c", .cond, .skipped⟩, ⟨"e", .otherwise, .pending⟩] = false ∧
+    Acts.Wait.stuck [⟨"c", .cond, .ended⟩, ⟨"e", .otherwise, .pending⟩, ⟨"n", .needs ["c"], .pending⟩] = false := by decide
 
 /-- the monitor is the property: with an empty queue it accepts exactly when every process is finished or waits -/
 theorem monitor_iff (procs : List Acts.Spec.QProc) :
